@@ -554,9 +554,9 @@ func (e *Env) evalBinary(t *EBinary) (Val, error) {
 	case "*":
 		return Val{T: fmt.Sprintf("(* %s %s)", a.T, b.T), Ty: mathInt}, nil
 	case "/":
-		return Val{T: fmt.Sprintf("(tdiv %s %s)", a.T, b.T), Ty: mathInt}, nil
+		return Val{T: divTerm(a.T, b.T), Ty: mathInt}, nil
 	case "%":
-		return Val{T: fmt.Sprintf("(tmod %s %s)", a.T, b.T), Ty: mathInt}, nil
+		return Val{T: modTerm(a.T, b.T), Ty: mathInt}, nil
 	case "<<":
 		return Val{T: fmt.Sprintf("(* %s (pow2 %s))", a.T, b.T), Ty: mathInt}, nil
 	case ">>":
@@ -720,6 +720,20 @@ func (e *Env) evalCall(t *ECall) (Val, error) {
 				return Val{}, err
 			}
 			return Val{T: fmt.Sprintf("(wrapu %s 18446744073709551616)", v.T), Ty: mathInt}, nil
+		case "idiv", "imod":
+			// interpreted (Euclidean/truncating by sign) division for lemmas that reason about it
+			a, err := e.Eval(t.Args[0])
+			if err != nil {
+				return Val{}, err
+			}
+			b, err := e.Eval(t.Args[1])
+			if err != nil {
+				return Val{}, err
+			}
+			if fname == "idiv" {
+				return Val{T: fmt.Sprintf("(tdiv %s %s)", a.T, b.T), Ty: mathInt}, nil
+			}
+			return Val{T: fmt.Sprintf("(tmod %s %s)", a.T, b.T), Ty: mathInt}, nil
 		case "pow2":
 			v, err := e.Eval(t.Args[0])
 			if err != nil {
